@@ -163,6 +163,25 @@ MUTANTS = [
 ]
 
 
+# Behaviour-preserving edits that must NOT raise an alarm: (name, property, file, [(old, new), ...])
+BENIGN = [
+    ("benign-rename-nested-args", "C05", "crates/bytecode/src/compiler.rs",
+     [("elements: nested_args,\n                ..\n            } => {\n                self.push_span(ctx.node_with_span(arg), ctx.ast);\n\n                // Nested args are accessed with signed 8-bit indices\n                if nested_args.len() > i8::MAX as usize {\n                    return self.error(ErrorKind::FunctionPropertyLimit {\n                        property: \"nested args\".into(),\n                        amount: nested_args.len(),\n                    });\n                }\n\n                let (size_op, size_to_check) = args_size_op(nested_args, ctx.ast);\n                self.push_op(size_op, &[arg_register, size_to_check as u8]);\n                self.compile_unpack_nested_args_of_tuple(arg_register, nested_args, ctx)?;",
+       "elements: inner,\n                ..\n            } => {\n                self.push_span(ctx.node_with_span(arg), ctx.ast);\n\n                // Nested args are accessed with signed 8-bit indices\n                if inner.len() > i8::MAX as usize {\n                    return self.error(ErrorKind::FunctionPropertyLimit {\n                        property: \"nested args\".into(),\n                        amount: inner.len(),\n                    });\n                }\n\n                let (size_op, size_to_check) = args_size_op(inner, ctx.ast);\n                self.push_op(size_op, &[arg_register, size_to_check as u8]);\n                self.compile_unpack_nested_args_of_tuple(arg_register, inner, ctx)?;")]),
+    ("benign-limit-check-as-match", "C05", "crates/bytecode/src/compiler.rs",
+     [("        if arm_patterns.len() > i8::MAX as usize {\n            return self.error(ErrorKind::TooManyMatchPatterns(arm_patterns.len()));\n        }\n",
+       "        let pattern_count = arm_patterns.len();\n        if pattern_count >= 128 {\n            return self.error(ErrorKind::TooManyMatchPatterns(pattern_count));\n        }\n")]),
+    ("benign-size-hint-checked-sub", "C13", "crates/runtime/src/core_lib/string/iterators.rs",
+     [("impl Iterator for Split {\n    type Item = Output;\n",
+       "impl Split {\n    #[allow(dead_code)]\n    fn remaining(&self) -> usize {\n        if self.start <= self.input.len() {\n            self.input.len() - self.start\n        } else {\n            0\n        }\n    }\n}\n\nimpl Iterator for Split {\n    type Item = Output;\n")]),
+    ("benign-vm-checked-add", "C06", "crates/runtime/src/vm.rs",
+     [("        let [result_register, value_register] = self.next_registers()?;",
+       "        let result_register = self.new_frame_base()?;\n        let Some(value_register) = result_register.checked_add(1) else {\n            return runtime_error!(\"Overflow of the current frame's register stack\");\n        };")]),
+    ("benign-read-line-trim-end", "C06", "crates/runtime/src/core_lib/io.rs",
+     [("                    let line = result.strip_suffix('\\n').unwrap_or(&result);\n                    line.strip_suffix('\\r').unwrap_or(line).into()",
+       "                    let newline_bytes = if result.ends_with(\"\\r\\n\") {\n                        2\n                    } else if result.ends_with('\\n') {\n                        1\n                    } else {\n                        0\n                    };\n                    result[..result.len() - newline_bytes].into()")]),
+]
+
 # Seeded changes written by independent sub-agents (seeded/<id>/patch.diff) that a rule must report:
 # (seed id, property whose check must fail, expected rule)
 SEEDS = [
@@ -206,8 +225,9 @@ def main():
         del want[i:i + 2]
     muts = [m for m in MUTANTS if m[5] is not None and (not want or any(w in m[0] for w in want))
             and (prop is None or m[1] == prop)]
+    benign = [x for x in BENIGN if (not want or any(w in x[0] for w in want)) and (prop is None or x[1] == prop)]
     seeds = [x for x in SEEDS if (not want or any(w in "seed-" + x[0] for w in want)) and (prop is None or x[1] == prop)]
-    if not muts and not seeds:
+    if not muts and not seeds and not benign:
         print("selftest: ok=0 fail=0 skip=0 (no catalogued mutant for this selection)")
         return 0
     scratch = tempfile.mkdtemp(prefix="kv_selftest_")
@@ -240,6 +260,30 @@ def main():
                 fail += 1
                 print(f"FAIL {name}: {prop} exit={r.returncode} broken={broken} expected {rule} on {fnsub}")
                 print("     " + "\n     ".join(r.stdout.splitlines()[-6:]))
+        for name, bprop, path, edits in benign:
+            fp = os.path.join(wt, path)
+            src = open(fp).read()
+            new_src = src
+            okk = True
+            for old_t, new_t in edits:
+                if new_src.count(old_t) != 1:
+                    okk = False
+                new_src = new_src.replace(old_t, new_t)
+            if not okk:
+                print(f"SKIP {name}: anchor text not found exactly once")
+                skip += 1
+                continue
+            open(fp, "w").write(new_src)
+            r = subprocess.run([os.path.join(VERIF, "check"), bprop, "--tier", "quick"], env=env, stdout=subprocess.PIPE,
+                               stderr=subprocess.STDOUT, text=True)
+            open(fp, "w").write(src)
+            if r.returncode == 0 and "VIOLATION" not in r.stdout:
+                ok += 1
+                print(f"OK   {name}: {bprop} stays silent on a behaviour-preserving edit")
+            else:
+                fail += 1
+                print(f"FAIL {name}: {bprop} exit={r.returncode} on a behaviour-preserving edit")
+                print("     " + "\n     ".join([l for l in r.stdout.splitlines() if "VIOLATION" in l or "BROKEN" in l][:6]))
         for sid, sprop, rule in seeds:
             patch = os.path.join(VERIF, "seeded", sid, "patch.diff")
             r = sh(f"git -C {wt} apply {patch}")
